@@ -272,7 +272,7 @@ def step (st : St) : List String → St × String
       | none => (st, "err rank")
       | some x =>
         -- self-certificate: the normal equations hold exactly
-        if (normalResidual CRat.conj b x y).all (· == 0) && x.length == b.nmodes then (st, "ok " ++ showVec x)
+        if certified CRat.conj b x y then (st, "ok " ++ showVec x)
         else (st, "err internal")
     | _, _ => (st, "bad-op")
   | "mirror" :: rest => mirrorStep st rest
